@@ -75,6 +75,13 @@ def expected_type_code(v):
 
 
 def check_read_back(prog, data, nptdms, version, model):
+    try:
+        return _check_read_back(prog, data, nptdms, version, model)
+    except Exception as ex:  # noqa: what was read back is so unlike what was written that the comparison itself fails
+        return ["what was read back cannot be compared with what was written (%s: %s)" % (type(ex).__name__, str(ex)[:120])]
+
+
+def _check_read_back(prog, data, nptdms, version, model):
     out = []
     T = nptdms.TdmsFile
     try:
